@@ -428,7 +428,7 @@ impl Val {
         }
     }
 
-    /// If the value is an integer in [-usize::MAX, +usize::MAX], return it, else fail.
+    /// If the value is an integer, return it saturated to [-usize::MAX, +usize::MAX], else fail.
     fn as_pos_usize(&self) -> Result<num::PosUsize, Error> {
         let fail = || Error::typ(self.clone(), Type::Int.as_str());
         self.as_num().and_then(Num::as_pos_usize).ok_or_else(fail)
